@@ -611,3 +611,22 @@ def r10_bilinear_weight(ck, P):
     got, it = bitprov.provenance(SU.functions['px_fi'])
     exp = [('in', 0, 16 + i) for i in range(16)] + [('in', 0, 31)] * 16
     _judge(ck, R, 'fixed_to_int', got, exp, 'pixman_fixed_to_int', '')
+
+
+def r9_float_widening_format(ck, P):
+    """sibling agreement of the two generic float readers"""
+    R = ck.rule('C10-R9', 'every call of pixman_expand_to_float on pixels fetched from an image passes that image\'s own format (a load of bits.format of the image parameter): the scanline and the single-pixel float readers widen an n-bit channel by the same rule v/(2^n-1)', floor=2)
+    n = 0
+    for f in P.functions():
+        for c in f.calls('pixman_expand_to_float'):
+            if len(c.a) < 3:
+                continue
+            n += 1; ck.saw(f)
+            y = f.v(f.strip_casts(c.a[2])) if c.a[2][0] == 'v' else None
+            if y is not None and y.op == 'load' and f.last_field(f.path(y.a[0])) == 'bits_image.format' and f.root(f.path(y.a[0]))[0] == 'arg':
+                ck.ok(R, '%s: widened with the format of its image parameter' % f.name)
+            else:
+                what = 'the constant 0x%x' % int(c.a[2][1]) if c.a[2][0] == 'c' else 'a value that is not the image\'s format'
+                ck.violation(R, f.name, 'format passed to pixman_expand_to_float', '%s widens fetched pixels with %s instead of the image\'s format: channels narrower than 8 bits are widened through their 8-bit replication (rep8(v)/255) here and as v/(2^n-1) by the sibling reader, so the two float readers disagree' % (f.name, what), c.loc())
+    if n < 2:
+        ck.incomplete(R, 'expected the scanline and the single-pixel generic float reader, found %d call(s)' % n)
